@@ -788,6 +788,7 @@ class Manager:
             return
 
         self._running = False
+        self._exit_code = code  # run() hands it to its caller once everything is drained
 
         self.fire(stopped(self))
 
@@ -959,6 +960,7 @@ class Manager:
                 pass
 
         self._running = True
+        self._exit_code = None
         self.root._executing_thread = current_thread()
 
         # Setup Communications Bridge
@@ -986,3 +988,6 @@ class Manager:
         self.root._executing_thread = None
         self.__thread = None
         self.__process = None
+
+        if self._exit_code is not None:
+            raise SystemExit(self._exit_code)
